@@ -676,20 +676,68 @@ def _optimizer(ctx, model):
                f"wrong condition (must be: removed iff {flag})")
     # (b) signature rewrite uses the same flags
     _, opt = model.func(f"{OPT}:optimize_mapper")
-    src = ast.unparse(opt).replace(" ", "").replace("\n", "")
-    ok = "vararg=Noneifdrop_argselsemdef.args.vararg" in src and \
-        "kwarg=Noneifdrop_kwargselsemdef.args.kwarg" in src
+    U = lambda n: ast.unparse(n).replace(" ", "")     # noqa: E731
+
+    def dropped_under(value, flag, attr):
+        """value is  None if <flag> else <x>.<attr>  (or the negated form)"""
+        if not isinstance(value, ast.IfExp):
+            return False
+        t, a_, b_ = value.test, value.body, value.orelse
+        if isinstance(t, ast.UnaryOp) and isinstance(t.op, ast.Not):
+            t, a_, b_ = t.operand, b_, a_
+        return isinstance(t, ast.Name) and t.id == flag and isinstance(
+            a_, ast.Constant) and a_.value is None and isinstance(
+            b_, ast.Attribute) and b_.attr == attr
+    sig_ok = {"vararg": False, "kwarg": False}
+    for c in ast.walk(opt):
+        if isinstance(c, ast.Call):
+            for k in c.keywords:
+                if k.arg == "vararg" and dropped_under(k.value, "drop_args",
+                                                       "vararg"):
+                    sig_ok["vararg"] = True
+                if k.arg == "kwarg" and dropped_under(k.value, "drop_kwargs",
+                                                      "kwarg"):
+                    sig_ok["kwarg"] = True
+    ok = all(sig_ok.values())
     ctx.ob("T/optimizer/signature-matches-call-sites", ok, m.loc(opt),
            "signatures drop *args/**kwargs under the same flags as call sites"
            if ok else
            "the rewritten signatures do not drop *args/**kwargs under the same "
-           "flags as the call sites")
-    ok = "_VarArgsRemover(drop_args=drop_args,drop_kwargs=drop_kwargs)" in src
+           f"flags as the call sites ({sig_ok})")
+
+    def passes_flags(cls_name, flags):
+        """the transformer is constructed with every flag passed under its own
+        name (keyword) or in declaration order (positional)"""
+        cls_ = model.cls(f"{OPT}:{cls_name}")
+        init_ = cls_.members.get("__init__")
+        order = [a.arg for a in init_.node.args.args[1:]] + \
+            [a.arg for a in init_.node.args.kwonlyargs] if init_ else flags
+        found = False
+        good = True
+        for c in ast.walk(opt):
+            if isinstance(c, ast.Call) and U(c.func) == cls_name:
+                found = True
+                got = {}
+                for i, a_ in enumerate(c.args):
+                    if i < len(order):
+                        got[order[i]] = a_
+                for k in c.keywords:
+                    got[k.arg] = k.value
+                for f in flags:
+                    v = got.get(f)
+                    if not (isinstance(v, ast.Name) and v.id == f):
+                        good = False
+        return found and good
+    ok = passes_flags("_VarArgsRemover", ["drop_args", "drop_kwargs"])
     ctx.ob("T/optimizer/flags-passed", ok, m.loc(opt),
-           "flags are passed to the call-site rewriter unchanged")
-    ok = "_RecInliner(inline_rec=inline_rec,inline_cache=inline_cache)" in src
+           "flags are passed to the call-site rewriter unchanged" if ok else
+           "optimize_mapper does not hand drop_args / drop_kwargs to "
+           "_VarArgsRemover under their own names")
+    ok = passes_flags("_RecInliner", ["inline_rec", "inline_cache"])
     ctx.ob("T/optimizer/inliner-flags-passed", ok, m.loc(opt),
-           "flags are passed to the rec inliner unchanged")
+           "flags are passed to the rec inliner unchanged" if ok else
+           "optimize_mapper does not hand inline_rec / inline_cache to "
+           "_RecInliner under their own names")
     # (c)/(d) hazards and guards
     rin = model.cls(f"{OPT}:_RecInliner")
     rv = rin.members.get("visit_Call")
